@@ -56,8 +56,8 @@ def gen(tape: Tape, tier: str) -> dict:
         reindexes=(None, None, True, False),
         dtypes=("f8", "f8", "f4", "i8", "i4", "i2", "b1"),
         label_kinds=("int", "int", "float"),
-        max_n=24,
-        max_groups=5,
+        max_n=36 if tier == "thorough" else 24,
+        max_groups=7 if tier == "thorough" else 5,
         max_ndim=2,
         by_dask_p=0.15,
         expected_modes=("superset", "superset", "subset", "subset", "disjoint", "exact"),
